@@ -10,6 +10,7 @@ pub(super) fn detect_cycles(ast: &Ast, diagnostics: &mut Diagnostics) {
     let mut cycle_detector = CycleDetector {
         type_being_checked: None,
         dependency_stack: Vec::new(),
+        dead_ends: HashSet::new(),
         reported_cycles: HashSet::new(),
         diagnostics,
     };
@@ -25,7 +26,8 @@ pub(super) fn detect_cycles(ast: &Ast, diagnostics: &mut Diagnostics) {
 
         debug_assert!(cycle_detector.dependency_stack.is_empty());
         cycle_detector.type_being_checked = Some((candidate.module_scoped_identifier(), candidate));
-        candidate.check_for_cycles(&mut cycle_detector)
+        cycle_detector.dead_ends.clear();
+        candidate.check_for_cycles(&mut cycle_detector);
     }
 
     // Check for interfaces that inherit from themselves (directly or transitively).
@@ -75,23 +77,28 @@ fn find_inheritance_path_to(
 
 /// This trait is implemented on a type if and only if it is possible for that type to cause a cycle.
 /// It contains a single method, used to check the type for cycles with the help of a [`CycleDetector`].
+///
+/// The method returns true if, anywhere in the dependency tree it traversed, it reached the type being checked or a
+/// type already on the dependency stack. If it returns false, nothing reachable from this type can be part of a cycle.
 trait CycleCandidate<'a>: Type + NamedSymbol {
-    fn check_for_cycles(&'a self, cycle_detector: &mut CycleDetector<'a>);
+    fn check_for_cycles(&'a self, cycle_detector: &mut CycleDetector<'a>) -> bool;
 }
 
 impl<'a> CycleCandidate<'a> for Struct {
     /// Checks this struct's fields for cycles.
-    fn check_for_cycles(&'a self, cycle_detector: &mut CycleDetector<'a>) {
-        cycle_detector.check_fields_for_cycles(self);
+    fn check_for_cycles(&'a self, cycle_detector: &mut CycleDetector<'a>) -> bool {
+        cycle_detector.check_fields_for_cycles(self)
     }
 }
 
 impl<'a> CycleCandidate<'a> for Enum {
     /// Iterates through the enumerators of this enum, and checks any fields for cycles.
-    fn check_for_cycles(&'a self, cycle_detector: &mut CycleDetector<'a>) {
+    fn check_for_cycles(&'a self, cycle_detector: &mut CycleDetector<'a>) -> bool {
+        let mut reached_stack = false;
         for enumerator in self.enumerators() {
-            cycle_detector.check_fields_for_cycles(enumerator);
+            reached_stack |= cycle_detector.check_fields_for_cycles(enumerator);
         }
+        reached_stack
     }
 }
 
@@ -103,6 +110,11 @@ struct CycleDetector<'a> {
     /// Each stack element is made up of the type-id of the field's type, and a reference to the field itself.
     dependency_stack: Vec<(String, &'a Field)>,
 
+    /// Stores the type-ids of types that cannot reach the type currently being checked (or anything else on the stack).
+    /// These don't need to be traversed again while checking the current type; without this, types that are shared by
+    /// many others (but aren't part of any cycle) would be re-traversed once for every path that leads to them.
+    dead_ends: HashSet<String>,
+
     /// Stores all the cycles we've reported so far, so we can avoid reporting duplicates.
     reported_cycles: HashSet<BTreeSet<String>>,
 
@@ -111,36 +123,45 @@ struct CycleDetector<'a> {
 }
 
 impl<'a> CycleDetector<'a> {
-    fn check_fields_for_cycles(&mut self, container: &'a dyn Container<Field>) {
+    fn check_fields_for_cycles(&mut self, container: &'a dyn Container<Field>) -> bool {
+        let mut reached_stack = false;
         for field in container.contents() {
-            self.check_field_type_for_cycles(field.data_type(), field);
+            reached_stack |= self.check_field_type_for_cycles(field.data_type(), field);
         }
+        reached_stack
     }
 
-    fn check_field_type_for_cycles(&mut self, type_ref: &'a TypeRef, origin: &'a Field) {
+    fn check_field_type_for_cycles(&mut self, type_ref: &'a TypeRef, origin: &'a Field) -> bool {
         match type_ref.concrete_type() {
             // For struct or enum types, we push them onto the stack, and attempt to recursively check them.
             Types::Struct(struct_ref) => self.push_to_stack_and_check(struct_ref, origin),
             Types::Enum(enum_ref) => self.push_to_stack_and_check(enum_ref, origin),
 
             Types::ResultType(result_type) => {
-                self.check_field_type_for_cycles(&result_type.success_type, origin);
-                self.check_field_type_for_cycles(&result_type.failure_type, origin);
+                let reached_by_success = self.check_field_type_for_cycles(&result_type.success_type, origin);
+                let reached_by_failure = self.check_field_type_for_cycles(&result_type.failure_type, origin);
+                reached_by_success || reached_by_failure
             }
 
             Types::Sequence(sequence) => self.check_field_type_for_cycles(&sequence.element_type, origin),
             Types::Dictionary(dictionary) => {
-                self.check_field_type_for_cycles(&dictionary.key_type, origin);
-                self.check_field_type_for_cycles(&dictionary.value_type, origin);
+                let reached_by_key = self.check_field_type_for_cycles(&dictionary.key_type, origin);
+                let reached_by_value = self.check_field_type_for_cycles(&dictionary.value_type, origin);
+                reached_by_key || reached_by_value
             }
 
             // Primitive and custom types are terminal since they can't reference any other types.
-            Types::Primitive(_) | Types::CustomType(_) => {}
+            Types::Primitive(_) | Types::CustomType(_) => false,
         }
     }
 
-    fn push_to_stack_and_check(&mut self, candidate: &'a dyn CycleCandidate<'a>, origin: &'a Field) {
+    fn push_to_stack_and_check(&mut self, candidate: &'a dyn CycleCandidate<'a>, origin: &'a Field) -> bool {
         let candidate_type_string = candidate.module_scoped_identifier();
+
+        // If we already know the candidate can't lead back to the type we're checking, there's no need to traverse it.
+        if self.dead_ends.contains(&candidate_type_string) {
+            return false;
+        }
 
         // If the candidate's type is the type we're checking, then its definition is cyclic and we report an error.
         if self.type_being_checked.as_ref().unwrap().0 == candidate_type_string {
@@ -148,7 +169,7 @@ impl<'a> CycleDetector<'a> {
             self.dependency_stack.push((candidate_type_string, origin));
             self.report_cycle_error();
             self.dependency_stack.pop();
-            return;
+            return true;
         }
 
         // If the candidate is in the dependency stack, but isn't the type we're checking, skip it.
@@ -156,15 +177,22 @@ impl<'a> CycleDetector<'a> {
         // candidate isn't the cause of the cycle, just a link or offshoot of it.
         for (seen_type_id, _) in &self.dependency_stack {
             if seen_type_id == &candidate_type_string {
-                return;
+                return true;
             }
         }
 
         // If we haven't detected any cycles yet, it's safe to continue recursing.
         // Push the current field and its type onto the stack, then check the candidate's fields.
         self.dependency_stack.push((candidate_type_string, origin));
-        candidate.check_for_cycles(self);
-        self.dependency_stack.pop();
+        let reached_stack = candidate.check_for_cycles(self);
+        let (candidate_type_string, _) = self.dependency_stack.pop().unwrap();
+
+        // If nothing reachable from the candidate led back onto the stack, then none of it can ever be part of a cycle
+        // through the type we're checking (no matter how it's reached), so we can skip it from now on.
+        if !reached_stack {
+            self.dead_ends.insert(candidate_type_string);
+        }
+        reached_stack
     }
 
     fn report_cycle_error(&mut self) {
